@@ -16,7 +16,7 @@ from __future__ import annotations
 
 import asyncio
 import math
-from datetime import timedelta
+from datetime import timedelta, timezone
 from typing import Any
 
 from sim import fakes
@@ -36,17 +36,20 @@ QUICK_RUNS = 3000
 THOROUGH_RUNS = 200_000
 EXPECT_PROBES = ["msg_aged_exactly_max", "msg_aged_max_plus_1us", "silence_exactly_max_age", "silence_max_minus_1us",
                  "failure_at_block_end", "backoff_doubled", "backoff_hit_max", "reset_on_success", "reset_after_not_working",
-                 "timer_and_msg_same_instant", "pool_variant", "failure_while_not_working", "results_back_to_back"]
+                 "timer_and_msg_same_instant", "pool_variant", "failure_while_not_working", "results_back_to_back",
+                 "messages_stamped_in_other_utc_offset"]
 
 BAD_KINDS = ["bad_state", "bad_relay", "critical_error", "nan_capacity", "stale_1us", "stale_1s"]
 NW, UN, WK = "NOT_WORKING", "UNCERTAIN", "WORKING"
 
 
-def _mk_msg(sim: Sim, stream: str, cid: int, kind: str, age_us: int) -> Any:
+def _mk_msg(sim: Sim, stream: str, cid: int, kind: str, age_us: int, tz: Any = None) -> Any:
     from frequenz.client.microgrid import (BatteryComponentState, BatteryError, BatteryRelayState, ErrorLevel,
                                            InverterComponentState, InverterError)
 
     ts = sim.wall() - timedelta(microseconds=age_us)
+    if tz is not None:
+        ts = ts.astimezone(tz)      # the same instant, stamped by a device that reports in another UTC offset
     kw: dict[str, Any] = {}
     if stream == "bat":
         if kind == "bad_state":
@@ -56,7 +59,7 @@ def _mk_msg(sim: Sim, stream: str, cid: int, kind: str, age_us: int) -> Any:
         elif kind == "critical_error":
             kw["errors"] = [BatteryError(level=ErrorLevel.CRITICAL)]
         elif kind == "nan_capacity":
-            kw["capacity"] = math.nan
+            kw["capacity"] = float("nan")   # a NaN object of its own, as decoded from a message (not the math.nan singleton)
         elif kind == "warn_error":
             kw["errors"] = [BatteryError(level=ErrorLevel.WARN)]
         return fakes.battery_data(cid, ts, **kw)
@@ -110,6 +113,10 @@ def scenario(sim: Sim) -> None:
     api = fakes.FakeMicrogridApi(sim, comps, conns)
     fakes.install_connection_manager(api)
     bats = [BatFacts(g[1][0], g[0][0], max_age_us, min_blk_us, max_blk_us) for g in groups]
+    tzk = ch.weighted("message_utc_offset", [3, 1, 1])
+    msg_tz = [None, timezone(timedelta(hours=5)), timezone(-timedelta(hours=3, minutes=30))][tzk]
+    if msg_tz is not None:
+        sim.probe("messages_stamped_in_other_utc_offset")
     sim.config.update(pool=pool, nbat=nbat, exact=exact, max_age_us=max_age_us, max_blk_us=max_blk_us)
     sim.note(f"{'pool' if pool else 'single'} nbat={nbat} profile={'exact' if exact else 'noisy'} "
              f"max_age={max_age_us}us max_block={max_blk_us}us")
@@ -266,7 +273,7 @@ def scenario(sim: Sim) -> None:
             b.last_msg_after_block_end = sim.now_us
         sim.ev("msg", f"{stream}:{kind}", cid)
         sim.note(f"deliver {stream} {cid} {kind}")
-        api.push(cid, _mk_msg(sim, stream, cid, kind, age))
+        api.push(cid, _mk_msg(sim, stream, cid, kind, age, msg_tz))
 
     # ------------------------------------------------------------------ the run
     async def main() -> None:
